@@ -15,6 +15,7 @@ mod p_upd;
 mod p_yaml;
 mod p_render;
 mod p_env;
+mod p_cfgcli;
 
 use std::io::{BufWriter, Write};
 
@@ -42,6 +43,7 @@ fn main() {
         "yaml" => p_yaml::main(&args[1..], &mut w),
         "render" => p_render::main(&args[1..], &mut w),
         "envrun" => p_env::main(&args[1..], &mut w),
+        "cfgcli" => p_cfgcli::main(&args[1..], &mut w),
         "consts" => p_consts::main(&args[1..], &mut w),
         x => { eprintln!("unknown subcommand {}", x); std::process::exit(2); }
     }
